@@ -223,10 +223,26 @@ func runC08(p *Program, r *Report) {
 					}
 				case *ssa.TypeAssert:
 					// RD4
-					if isReaderType(in.X.Type()) && types.IsInterface(in.X.Type()) && !types.IsInterface(in.AssertedType) {
+					// asserting the stream to a concrete type, or probing it for a capability other than
+					// reading (Size, Len, Peek, Discard, Buffered, Seek …), makes what the parser does —
+					// and here even whether it succeeds — depend on what the caller wrapped the bytes in
+					probe := false
+					if it, ok := in.AssertedType.Underlying().(*types.Interface); ok {
+						for k := 0; k < it.NumMethods(); k++ {
+							switch it.Method(k).Name() {
+							case "Read", "ReadByte":
+							case "Discard":
+								// a forward-only skip of exactly n bytes: what it does is a function of the byte
+								// sequence, not of the read schedule
+							default:
+								probe = true
+							}
+						}
+					}
+					if isReaderType(in.X.Type()) && types.IsInterface(in.X.Type()) && (!types.IsInterface(in.AssertedType) || probe) {
 						site["assert"]++
 						key := fmt.Sprintf("%s assert#%d", shortFn(f), site["assert"])
-						r.Violate("C08.RD4", key, p.InstrPos(in), "type assertion on the stream reader to "+typeString(in.AssertedType)+": exposes buffering state that depends on the read schedule")
+						r.Violate("C08.RD4", key, p.InstrPos(in), "type assertion on the stream reader to "+typeString(in.AssertedType)+": exposes buffering state or a capability that depends on how the caller delivers the data, not on the bytes")
 					}
 				}
 			}
